@@ -483,7 +483,7 @@ PROPS["C07"] = {"theorems": ["C07_strict_tree_partial", "C07_strict_iff_partial"
                              "C07_none", "C07_list_step", "derive_scalar", "defaultCoerce_typed", "strict_scalar_iff", "C07_strict_tree2_partial", "C07_strict_iff2_partial", "node_utuple_plain", "node_ntuple_plain", "node_maybe", "hasTypeZip_slots",
                              "C07_default_tree_partial", "C07_default_iff_partial", "C07_default_complete_partial",
                              "C07_default_sound_partial", "hasType_accD", "node_scalar_dflt", "node_utuple_dflt",
-                             "node_ntuple_dflt", "src_typehints_pinned", "src_typehint_simple_arms", "src_typehint_simple_arms_count"],
+                             "node_ntuple_dflt", "src_typehints_pinned", "src_typehint_simple_arms", "src_typehint_simple_arms_count", "src_sigresolver_simple_arms", "src_sigresolver_falls_through"],
                 "modules": ["KodaModel.Properties.C07", "KodaModel.Properties.C07Tree", "KodaModel.Properties.C07Tree2", "KodaModel.Properties.C07Dflt", "KodaModel.Properties.C07Pins", "KodaModel.Properties.C07Src"],
                 "level_note": "src_typehint_simple_arms: the fifteen identity-tested arms of get_typehint_validator_base (scalars, None, Any, bare "
                               "list / set / tuple / dict), read from the source on every run, return what the model's `derive .dflt` builds "
@@ -547,10 +547,14 @@ PROPS["C08"] = {"theorems": ["C08_body_iff", "C08_invalid_args", "C08_all_pass",
                               "error keys and delivered values with the real decorator"}
 PROPS["C09"] = {"theorems": ["C08_all_pass", "C09_unchecked_untouched", "C09_checked_payload", "C09_transparent_return",
                              "slot_pass_iff", "C08_body_exception", "C07_strict_iff2_partial", "C07_strict_tree2_partial",
-                             "C07_strict_iff_partial", "C07_scalar_strict", "src_signature_pinned", "src_typehints_pinned"],
+                             "C07_strict_iff_partial", "C07_scalar_strict", "src_signature_pinned", "src_typehints_pinned",
+                             "src_sigresolver_simple_arms", "src_sigresolver_falls_through"],
                 "modules": ["KodaModel.Properties.C08", "KodaModel.Properties.C07Tree", "KodaModel.Properties.C07Tree2",
-                            "KodaModel.Properties.C08Pins", "KodaModel.Properties.C07Pins"],
-                "level_note": "the text of validate_signature / _wrap_fn / _get_validator / resolve_signature_typehint_default the hand-written model (KodaModel/Signature.lean) was written against is pinned against the current source (src_signature_pinned): a change there is an obligation that no longer checks and starts the failing-input search.  the text of koda_validate/typehints.py (whole module) the hand-written model `derive` was written against is pinned, statement by statement, against the text that is there now (src_typehints_pinned; Generated/PinsSrc.lean is regenerated on every run): a change there is an obligation that no longer checks and starts the failing-input search.  delivery and return transparency are proved for `wrapCall`; strictness of the default "
+                            "KodaModel.Properties.C08Pins", "KodaModel.Properties.C07Pins", "KodaModel.Properties.C07Src"],
+                "level_note": "src_sigresolver_simple_arms / _falls_through: the five identity-tested arms of "
+                              "resolve_signature_typehint_default (Decimal, UUID, date, datetime, bare tuple), read from the source "
+                              "on every run, return the coercer-less validators `derive .signature` builds, and for the other ten "
+                              "names of the base resolver the strict resolver has no arm and the two models coincide.  the text of validate_signature / _wrap_fn / _get_validator / resolve_signature_typehint_default the hand-written model (KodaModel/Signature.lean) was written against is pinned against the current source (src_signature_pinned): a change there is an obligation that no longer checks and starts the failing-input search.  the text of koda_validate/typehints.py (whole module) the hand-written model `derive` was written against is pinned, statement by statement, against the text that is there now (src_typehints_pinned; Generated/PinsSrc.lean is regenerated on every run): a change there is an obligation that no longer checks and starts the failing-input search.  delivery and return transparency are proved for `wrapCall`; strictness of the default "
                               "signature resolution (nothing is coerced: accepted iff the value already is of the "
                               "annotated type) is proved for the annotation forms of `annFrag2` - scalars, classes, Any, None, bare list / "
                               "tuple, List, Tuple[T, ...], Tuple[A, B, ...], Maybe, Union / Optional, any nesting "
